@@ -534,3 +534,159 @@ class FromMatricesFlexible(_FromMatrices):
     name = "JobShopInstance.from_matrices$flexible"
     params = {"duration_matrix": LIST(LIST(INT)), "machines_matrix": LIST(LIST(LIST(INT))), "name": ANY, "metadata": ANY}
     flexible = True
+
+
+# ---------------------------------------------------------------------------
+# round trip through the matrices (ghost lemma contracts/ghost_src.py::lemma_matrices_round_trip)
+# ---------------------------------------------------------------------------
+@register
+class LemmaMatricesRoundTrip(Contract):
+    """from_matrices(I.durations_matrix, I.machines_matrix) has the same jobs as the non-flexible instance I: as many
+    jobs, as many operations per job, the same duration and the same machine for every operation (what to_dict stores
+    and Schedule.from_dict / the benchmark loader read back)"""
+    name = "lemma_matrices_round_trip"
+    ret = REF("JobShopInstance")
+    properties = ("C14",)
+    params = {"instance": REF("JobShopInstance")}
+
+    def requires(self, c):
+        h, I = c.h0, c["instance"]
+        it = Inst(h, I)
+        j, p = bv("j"), bv("p")
+        return valid_instance(h, I) + [("non-flexible", forall([j, p], imp(
+            z3.And(rng(j, 0, it.J), rng(p, 0, it.L(j))), it.nmach(it.op(j, p)) == 1), patterns=[it.op(j, p)]))]
+
+    def modifies(self, c):
+        return Frame(fields={"$gj": "ALL", "$gp": "ALL", "$$cumL": "ALL"}, alloc_objects=True, alloc_lists=True)
+
+    def ensures(self, c):
+        h0, h, I, R = c.h0, c.h, c["instance"], c.result
+        a, b = Inst(h0, I), Inst(h, R)
+        j, p = bv("j"), bv("p")
+        oa, ob = a.op(j, p), b.op(j, p)
+        return [("a-new-instance", z3.And(R >= h0.alloc, R < h.alloc)),
+                ("same-job-structure", z3.And(b.J == a.J, forall([j], imp(rng(j, 0, a.J), b.L(j) == a.L(j)),
+                                                                 patterns=[b.job(j)]))),
+                ("same-durations-and-machines", forall([j, p], imp(z3.And(rng(j, 0, a.J), rng(p, 0, a.L(j))), z3.And(
+                    b.dur(ob) == a.dur(oa), b.nmach(ob) == 1, b.mach(ob, 0) == a.mach(oa, 0))),
+                    patterns=[b.op(j, p)]))]
+
+
+@register
+class InstanceToDict(Contract):
+    """to_dict(): the dictionary literal holds the name, the two matrices (as the views compute them) and the metadata"""
+    name = "JobShopInstance.to_dict"
+    properties = ("C14",)
+    params = {"self": REF("JobShopInstance")}
+    # shape of the returned dictionary display (what a caller sees)
+    ret_dict = {"name": ANY, "duration_matrix": LIST(LIST(INT)), "machines_matrix": LIST(LIST(INT)), "metadata": ANY}
+
+    def requires(self, c):
+        return valid_instance(c.h0, c["self"])
+
+    def modifies(self, c):
+        return Frame(alloc_lists=True)
+
+    def ensures(self, c):
+        h0, h, I = c.h0, c.h, c["self"]
+        it = Inst(h0, I)
+        d = c.res.t
+        dm, mm = d["duration_matrix"].t, d["machines_matrix"].t
+        j, p = bv("j"), bv("p")
+        row = h.at(dm, j)
+        return [("keys", z3.BoolVal(sorted(d) == ["duration_matrix", "machines_matrix", "metadata", "name"])),
+                ("name-and-metadata-are-the-fields", z3.And(d["name"].t == h0.get("name", I),
+                                                            d["metadata"].t == h0.get("metadata", I))),
+                ("duration-matrix-holds-the-durations", z3.And(h.len(dm) == it.J, forall([j], imp(rng(j, 0, it.J), z3.And(
+                    h.len(row) == it.L(j),
+                    forall([p], imp(rng(p, 0, it.L(j)), h.at(row, p) == it.dur(it.op(j, p))), patterns=[h.at(row, p)]))),
+                    patterns=[h.at(dm, j)]))),
+                ("machines-matrix-has-one-row-per-job", h.len(mm) == it.J)]
+
+
+@register
+class ScheduleToDict(Contract):
+    """Schedule.to_dict(): "job_sequences" has one row per machine list, row m holding the job ids of that machine's
+    scheduled operations in order; "instance" is the instance's dictionary, "metadata" the metadata field"""
+    name = "Schedule.to_dict"
+    properties = ("C14",)
+    params = {"self": REF("Schedule")}
+
+    def requires(self, c):
+        from .core import sched_wf
+        h, s = c.h0, c["self"]
+        return valid_instance(h, h.get("instance", s)) + [("self", s > 0)] + sched_wf(h, h.get("_schedule", s)) + [
+            ("schedule-lists-exist", z3.And(h.get("_schedule", s) < h.alloc, forall(
+                [bv("m")], imp(rng(bv("m"), 0, h.len(h.get("_schedule", s))), h.at(h.get("_schedule", s), bv("m")) < h.alloc),
+                patterns=[h.at(h.get("_schedule", s), bv("m"))])))]
+
+    def modifies(self, c):
+        return Frame(alloc_lists=True)
+
+    def _rows(self, h0, h, S, R, upto):
+        m, i = bv("m"), bv("i")
+        row, src = h.at(R, m), h0.at(S, m)
+        return forall([m], imp(rng(m, 0, upto), z3.And(
+            row > R, row < h.alloc, h.len(row) == h0.len(src),
+            forall([i], imp(rng(i, 0, h0.len(src)), h.at(row, i) == h0.get("job_id", h0.get("operation", h0.at(src, i)))),
+                   patterns=[h.at(row, i)]))), patterns=[h.at(R, m)])
+
+    def ensures(self, c):
+        h0, h, s = c.h0, c.h, c["self"]
+        S = h0.get("_schedule", s)
+        d = c.res.t
+        R = d["job_sequences"].t
+        return [("keys", z3.BoolVal(sorted(d) == ["instance", "job_sequences", "metadata"])),
+                ("metadata-is-the-field", d["metadata"].t == h0.get("metadata", s)),
+                ("instance-is-the-instance's-dictionary", z3.BoolVal(
+                    sorted(d["instance"].t) == ["duration_matrix", "machines_matrix", "metadata", "name"])),
+                ("one-row-per-machine-with-the-job-ids-in-order", z3.And(
+                    R >= h0.alloc, R < h.alloc, h.len(R) == h0.len(S), self._rows(h0, h, S, R, h0.len(S))))]
+
+    @property
+    def loops(self):
+        def inv(k):
+            h0, h, s = k.h0, k.h, k["self"]
+            S = h0.get("_schedule", s)
+            R = k.v("job_sequences")
+            return [("rows-so-far", z3.And(R >= h0.alloc, R < h.alloc, h.len(R) == k.i, k.n == h0.len(S),
+                                           self._rows(h0, h, S, R, k.i)))]
+
+        def mod(k):
+            A0 = k.h0.alloc
+            return Frame(lists=lambda l: l >= A0, alloc_lists=True)
+        return {0: LoopSpec("for machine_schedule in self.schedule", inv, mod)}
+
+
+@register
+class LemmaMatricesRoundTripFlexible(Contract):
+    """the flexible case: some operation has several machines, the machines matrix then holds the operations' machine
+    lists and from_matrices (contract for that argument shape) hands each list to the new operation"""
+    name = "lemma_matrices_round_trip_flexible"
+    ret = REF("JobShopInstance")
+    properties = ("C14",)
+    params = {"instance": REF("JobShopInstance")}
+    call_variants = {"JobShopInstance.from_matrices": "JobShopInstance.from_matrices$flexible"}
+
+    def requires(self, c):
+        h, I = c.h0, c["instance"]
+        it = Inst(h, I)
+        j, p = bv("jf"), bv("pf")
+        return valid_instance(h, I) + [("flexible", z3.Exists([j, p], z3.And(
+            rng(j, 0, it.J), rng(p, 0, it.L(j)), it.nmach(it.op(j, p)) > 1)))]
+
+    def modifies(self, c):
+        return Frame(fields={"$gj": "ALL", "$gp": "ALL", "$$cumL": "ALL"}, alloc_objects=True, alloc_lists=True)
+
+    def ensures(self, c):
+        h0, h, I, R = c.h0, c.h, c["instance"], c.result
+        a, b = Inst(h0, I), Inst(h, R)
+        j, p, q = bv("j"), bv("p"), bv("q")
+        oa, ob = a.op(j, p), b.op(j, p)
+        return [("a-new-instance", z3.And(R >= h0.alloc, R < h.alloc)),
+                ("same-job-structure", z3.And(b.J == a.J, forall([j], imp(rng(j, 0, a.J), b.L(j) == a.L(j)),
+                                                                 patterns=[b.job(j)]))),
+                ("same-durations-and-machines", forall([j, p], imp(z3.And(rng(j, 0, a.J), rng(p, 0, a.L(j))), z3.And(
+                    b.dur(ob) == a.dur(oa), b.nmach(ob) == a.nmach(oa),
+                    forall([q], imp(rng(q, 0, a.nmach(oa)), b.mach(ob, q) == a.mach(oa, q)), patterns=[b.mach(ob, q)]))),
+                    patterns=[b.op(j, p)]))]
